@@ -9,7 +9,7 @@ Import ListNotations.
 Lemma QcA_laws : akern_laws Qc QcO QcA.
 Proof.
   constructor; intros; cbn [a_power_scale a_proportion a_remaining a_demand_met a_demands_ratio a_nema a_minutes
-                            a_abs_applied QcA odiv osub omul oofZ oltb QcO].
+                            a_energy_cost a_demand_charge a_abs_applied QcA odiv osub omul oofZ oltb QcO].
   - unfold An_power_scale. apply Qc_is_canon. rewrite this_Q2Qc, this_div, this_Q2Qc. reflexivity.
   - unfold An_proportion. apply Qc_is_canon. rewrite this_Q2Qc, this_div. reflexivity.
   - unfold EV_remaining_demand. apply Qc_is_canon. rewrite this_Q2Qc, this_minus. reflexivity.
@@ -17,6 +17,8 @@ Proof.
   - unfold An_demands_ratio. apply Qc_is_canon. rewrite this_Q2Qc, this_div. reflexivity.
   - unfold An_nema. apply Qc_is_canon. rewrite this_Q2Qc, this_div, this_minus. reflexivity.
   - unfold An_minutes. apply Qc_is_canon. rewrite this_Q2Qc, this_mult. reflexivity.
+  - unfold An_energy_cost. apply Qc_is_canon. rewrite this_Q2Qc, this_mult, this_div, this_Q2Qc. reflexivity.
+  - unfold An_demand_charge. apply Qc_is_canon. rewrite this_Q2Qc, this_mult. reflexivity.
   - reflexivity.
 Qed.
 
@@ -43,6 +45,12 @@ Lemma aggregate_relabel_Qc (tr tr' : trajQc) :
   length (t_volts tr) = length (t_rates tr) -> length (t_volts tr') = length (t_rates tr') ->
   aggregate_current QcO tr = aggregate_current QcO tr' /\ aggregate_power QcO QcA tr = aggregate_power QcO QcA tr'.
 Proof. intros. qc_inst (aggregate_relabel_F Qc QcO Qcinv). Qed.
+
+Lemma costs_Qc (tr : trajQc) prices dc :
+  Forall (fun row => length row = t_width tr) (t_rates tr) ->
+  energy_cost QcO QcA tr prices = energy_cost_spec QcO tr prices
+  /\ demand_charge QcO QcA tr dc = demand_charge_spec QcO tr dc.
+Proof. intro H. qc_inst (costs_F Qc QcO Qcinv). Qed.
 
 Lemma constraint_currents_Qc (tr : trajQc) flag ids :
   wf tr -> NoDup (t_cindex tr) ->
